@@ -88,6 +88,8 @@ def make_rows(rng, fmt, n):
     """returns rows of literal strings and the values they denote"""
     if fmt == "tum":
         t = np.sort(rng.uniform(0, 1e4, size=n)) if rng.random() < .5 else 1.5e9 + np.cumsum(rng.random(n))
+        if rng.random() < .1:
+            t = 1.4e18 + np.cumsum(rng.integers(10**6, 10**8, size=n)).astype(float)  # integer nanoseconds (the unit is the user's)
         if rng.random() < .12 and n >= 2:
             # rows sharing a stamp (two sensors logged into one file, a repeated last message),
             # rows that are not in chronological order: the convention does not forbid either
